@@ -260,6 +260,21 @@ def norm_bare(d):
     """identify nodeargd=None with an empty argument container (a literal space never occurs inside a dumped string)"""
     return d.replace(' <>)', ' None)')
 
+def first_closing_brace(w, ps, pos):
+    """position of the closing delimiter if that is the first token at or after pos once whitespace and comments are
+    skipped (tokens read the way an expression is read: environments disabled), else None"""
+    from pylatexenc.latexnodes import LatexWalkerError
+    eps = ps.sub_context(enable_environments=False)
+    tr = w.make_token_reader(pos=pos)
+    try:
+        while True:
+            t = tr.next_token(parsing_state=eps)
+            if t.tok == 'comment':
+                continue
+            return t.pos if t.tok == 'brace_close' else None
+    except LatexWalkerError:
+        return None
+
 def run_impl(c):
     from pylatexenc import latexwalker
     from pylatexenc.latexnodes import parsers, nodes as N
@@ -364,7 +379,11 @@ def run_impl(c):
             else:
                 es = 'TUP %s %s %s' % (dump_bare(nv), show_opt(nv.pos), show_opt(nv.len))
         else:
-            closing = isinstance(nv, PE) and parsecase.err_what(nv) == 'expression_required_got_unexpected:closing_latex_group'
+            # the special case concerns a closing brace met where THIS expression starts (after whitespace and comments);
+            # the same kind of error coming from a nested expression (the argument of a macro inside the group being
+            # read) is an ordinary parse error and is raised
+            closing = isinstance(nv, PE) and parsecase.err_what(nv) == 'expression_required_got_unexpected:closing_latex_group' \
+                and nv.pos == first_closing_brace(w, ps, pos)
             if closing and not sb:
                 # the documented empty result
                 es = dummy() if sb is False else 'TUP None %d 0' % pos
@@ -531,8 +550,38 @@ def arg_inputs(rng, a, n):
         if t not in seen:
             seen.add(t); yield t
 
+# fixed regression inputs (each once found by a run of this check)
+REGRESSIONS = [
+    # closing-brace error from a NESTED expression parser: no marker attribute, get_latex_expression re-raises
+    {'tol': False, 'ctx': 'A', 's': '{\\m}', 'pos': 0, 'call': ['expr', None]},
+    {'tol': False, 'ctx': 'A', 's': '{\\m}', 'pos': 0, 'call': ['expr', False]},
+    {'tol': False, 'ctx': 'A', 's': '{\\m}', 'pos': 0, 'call': ['expr', True]},
+    {'tol': True, 'ctx': 'A', 's': '{\\m}', 'pos': 0, 'call': ['expr', None]},
+]
+
+# a closing delimiter where a NESTED expression is expected (contexts A and default)
+NESTED_CLOSE = {
+    'A': ['{\\m}', '\\mm{a}}', '{\\mm{a}}', '[\\m]', '\\o[\\m]{a}', '\\o[a\\m]{a}', '{\\m }', '{\\m%c\n}', '{{\\m}}', '\\m{\\m}',
+          '{\\mm{a} }', '$\\m$', '${\\m}$', '\\({\\m}\\)', '\\begin{e}{\\m}\\end{e}', '\\begin{eq}{\\m}\\end{eq}', '\\begin{ea}[\\m]{a}\\end{ea}',
+          '\\begin{ea}{\\m}\\end{ea}', '{\\d<\\m>a}', '\\r(\\m)', '{\\om[\\m]{a}}', '{\\tx}', '{a\\mt}', '![\\m]', '{\\so*[\\m]{a}}', '{\\m\\m}', '{\\m{\\m}}'],
+    'default': ['{\\emph}', '{\\frac{a}}', '\\sqrt[\\emph]{a}', '{\\sqrt[\\emph]{a}}', '\\emph{\\emph}', '$\\emph$', '${\\frac{a}}$', '\\begin{equation}{\\frac{a}}\\end{equation}',
+                '\\begin{itemize}\\item[\\emph]\\end{itemize}', '{\\textbf }', '{\\ensuremath}', '\\[{\\text}\\]', '{\\emph%c\n}', '{{\\emph}}'],
+}
+NESTED_CALLS = EXPR_VARIANTS + GROUP_VARIANTS[:5] + OPT_VARIANTS + [NODES_VARIANTS[0], NODES_VARIANTS[1], NODES_VARIANTS[2], NODES_VARIANTS[12]] + \
+    [['args', 'L', '{', False, None], ['args', 'Q', '{{', False, None], ['args', 'L', '[{', False, None], ['args', 'S', '{', False, None]]
+
 def cases(tier, rng):
     quick = tier == 'quick'
+    for c in REGRESSIONS:
+        yield dict(c)
+    # 0. a closing delimiter where a nested expression is expected: every position, strict and tolerant
+    for name, strs in NESTED_CLOSE.items():
+        for s in strs:
+            for c in sweep(s, name, NESTED_CALLS):
+                yield c
+            for t in (' ', 'x', '}'):
+                for c in sweep(s + t, name, EXPR_VARIANTS):
+                    yield c
     # 1. exhaustive short strings, every position, every variant
     for s in gen.exhaustive(SMALL_ATOMS, 1):
         for name in ('default', 'A'):
